@@ -53,21 +53,28 @@ def split_top_comma(text):
     raise ValueError(text)
 
 
-def blockify(st):
-    """the step's macro text with every expression operand written as a `{ .. }` block (such operands are evaluated in front of the step)"""
+def blockify(st, ids=None):
+    """the step's macro text with every expression operand written as a `{ .. }` block (such operands are evaluated in front of the step);
+    ids: list to which the id of every block is appended, in the order of writing - every block logs `blk(id)`"""
     if st.op in NO_EXPR_OPERAND or st.inner is not None:
         return st.mac
     op, _, rest = st.mac.partition(" ")
     if not rest.strip():
         return st.mac
+
+    def blk():
+        if ids is None:
+            return ""
+        ids.append(len(ids) + 1)
+        return "blk(%d); " % ids[-1]
     if st.op in ("^@", "?^@"):
         a, b = split_top_comma(rest)
-        return "%s { %s }, { %s }" % (op, a, b)
+        return "%s { %s%s }, { %s%s }" % (op, blk(), a, blk(), b)
     if st.op == "?&!>":
         # (the DSL renders partition as TWO operators, `?&!> pred -> typed identity`: each operand is its own block)
         a, b = rest.split(" -> move |v: (Vec<", 1)
-        return "%s { %s } -> { move |v: (Vec<%s }" % (op, a, b)
-    return "%s { %s }" % (op, rest)
+        return "%s { %s%s } -> { %smove |v: (Vec<%s }" % (op, blk(), a, blk(), b)
+    return "%s { %s%s }" % (op, blk(), rest)
 
 
 def has_operand(st):
@@ -90,12 +97,14 @@ def build(pid, macro, ctx, input_expr, chain, final_t, second_branch=False, grou
     ref = render_ref(chain, input_expr)
     if blocks:
         unlog = lambda x: re.sub(r"lv\(\d+, ", "(", x)
-        mac_chain = unlog(" ".join(("~" if st.deferred else "") + blockify(st) for st in chain))
+        blk_ids = [0] if block_init else []     # (a block initial value is the first block of its branch)
+        mac_chain = unlog(" ".join(("~" if st.deferred else "") + blockify(st, blk_ids) for st in chain))
         ref = unlog(render_ref(chain, "@BASE@")).replace("@BASE@", input_expr)
     ids = [i_init] + all_ids(chain)
     ref_input = input_expr
     if block_init:
-        input_expr = "{ %s }" % input_expr
+        input_expr = "{ blk(%d); %s }" % (len(blk_ids) + 1, input_expr)
+        blk_ids[0] = len(blk_ids) + 1
     if second_branch:
         text = "%s! { %s, %s %s }" % (macro, "mo(true, 7u8)" if is_try and final_t[0] == "opt" else ("mk(true, 7u8)" if is_try else "7u8"), input_expr, mac_chain)
     else:
@@ -104,6 +113,11 @@ def build(pid, macro, ctx, input_expr, chain, final_t, second_branch=False, grou
     L.append("let m = %s;" % text)
     if ids:
         L.append("let tm = (%s, trace(), ncalls());" % trace_vars(ids))
+    if blocks:
+        h = 0
+        for b_ in blk_ids:
+            h = (h * 31 + b_) & 0xFFFFFFFF
+        L.append("vassert!(blk_hash() == %du32, \"C01[%s]: every operand block is evaluated exactly once, in the order of writing (initial value first)\");" % (h, pid))
     L.append("reset_calls();")
     L.append("let r = %s;" % ref)
     if ids:
